@@ -18,17 +18,20 @@ pub struct Env {
     pub ops: [bool; 256],
     /// openers for the must-accept premise: library's own plus the standard four
     pub openers_strict: Vec<u8>,
+    /// exactly the bytes the library itself treats as block openers at the top level of a script
+    pub openers_learned: Vec<u8>,
 }
 
 pub fn env() -> Env {
     let ops = learn_opcode_set();
-    let mut o = learn_openers();
+    let learned = learn_openers();
+    let mut o = learned.clone();
     for b in [rs::OP_IF, rs::OP_NOTIF, rs::OP_VERIF, rs::OP_VERNOTIF] {
         if !o.contains(&b) {
             o.push(b);
         }
     }
-    Env { ops, openers_strict: o }
+    Env { ops, openers_strict: o, openers_learned: learned }
 }
 
 fn form_name(f: u8) -> &'static str {
@@ -111,6 +114,10 @@ fn eval_bytes_inner(b: &[u8], env: &Env, acc: &mut Acc, case: &Case) {
                     acc.outcome(&[b'a', (toks.len() as u8)]);
                     if rs::open_depth(&toks, &[rs::OP_IF, rs::OP_NOTIF]) > 0 {
                         acc.violate("C02/from_bytes/kind=unclosed-conditional-accepted", case.idx, case.json(input()), "IF/NOTIF block never closed but the script was accepted");
+                    } else if rs::open_depth(&toks, &env.openers_learned) > 0 {
+                        // the library's own grammar: a byte that opens a block when it stands first in a script opens one
+                        // wherever it stands, so a block it opened and nothing closed is an unclosed conditional
+                        acc.violate("C02/from_bytes/kind=unclosed-conditional-accepted/opener=library-specific", case.idx, case.json(input()), "a block opened by an opcode the library itself treats as a conditional opener is never closed but the script was accepted");
                     }
                     match guard(|| script.to_bytes()) {
                         Ok(back) => {
